@@ -1819,7 +1819,8 @@ class Case:
         self.ncid += 1
         cid = b'c%d-%d' % (self.spec.get('seed', 0) % 100000, self.ncid)
         body = b'body of ' + cid + b'\r\n' + b'x' * rng.choice(
-            [0, 0, 1, 17, 300]) + (b'\r\n' if rng.random() < 0.8 else b'')
+            [0, 0, 1, 17, 300, 300, 3900, 4096, 5000, 9000]) + (
+                b'\r\n' if rng.random() < 0.8 else b'')
         msg = make_msg(cid, body=body)
         line = b'APPEND ' + (rng.choice([b'INBOX', b'inbox', b'"INBOX"'])
                              if dest == INBOX else dest)
@@ -1967,7 +1968,11 @@ class Case:
 
     async def run(self) -> None:
         spec = self.spec
-        env = await make_env(self.backend, {'u1': 'pw1'})
+        over: dict[str, Any] = {}
+        if spec.get('seed', 0) % 7 == 3:
+            # a deployment without APPENDLIMIT
+            over['max_append_len'] = None
+        env = await make_env(self.backend, {'u1': 'pw1'}, **over)
         try:
             try:
                 self.env = env
